@@ -23,6 +23,18 @@ pub fn check_range(ctx: &mut Ctx<'_>, r: &Range, address_size: u8) {
         if r.begin >= r.end {
             ctx.violate("c08_empty_range", format!("yielded range {:#x}..{:#x} is empty or inverted", r.begin, r.end));
         }
+        // "non-empty" is a statement about target addresses: a range whose bounds, taken as
+        // addresses of the unit's address size, are equal or inverted covers nothing
+        let mask = if address_size >= 8 { u64::MAX } else { (1u64 << (8 * address_size as u32)) - 1 };
+        if r.end > mask || r.begin > mask {
+            ctx.probe("c08_bound_wider_than_address_size");
+            if (r.begin & mask) >= (r.end & mask) {
+                ctx.violate(
+                    "c08_empty_range",
+                    format!("yielded range {:#x}..{:#x} is empty or inverted as {}-byte addresses", r.begin, r.end, address_size),
+                );
+            }
+        }
         if r.begin >= min_tombstone(address_size) {
             ctx.violate(
                 "c08_tombstone",
